@@ -139,7 +139,7 @@ pub fn run(ctx: &Ctx) {
     drive(ctx, &suite, &|f| check_json(ctx, f));
     // 2b. the record is a function of the frame only ("decoding that hex again gives the same fields"): related frames
     //     in several orders on one thread must serialise identically each time
-    drive_families_with(ctx, "c07", ctx.tier.pick(48_000, 400_000), &json_observable, Some(&|f| check_json(ctx, f)));
+    drive_families_with(ctx, "c07", ctx.tier.pick(48_000, 160_000), &json_observable, Some(&|f| check_json(ctx, f)));
     // 2c. decode1090 unwraps to_string: batches of generated frames through the real binary, both input modes
     match std::env::var("DECODE1090_BIN") {
         Ok(bin) => {
